@@ -243,6 +243,17 @@ impl ParseState {
                     return Err(CustomError::extend_wrong_type(path, i, v.type_name()));
                 }
                 Item::ArrayOfTables(ref mut array) => {
+                    // Dotted keys cannot extend an array of tables, not even by adding a new
+                    // sub-table to its last element (when the array is the last path component,
+                    // `on_keyval` reports the error on the final key)
+                    if dotted {
+                        if let Some(next) = path.get(i + 1) {
+                            return Err(CustomError::DuplicateKey {
+                                key: next.get().into(),
+                                table: None,
+                            });
+                        }
+                    }
                     debug_assert!(!array.is_empty());
 
                     let index = array.len() - 1;
